@@ -16,8 +16,10 @@ Covered problem features: index locations + one explicit matrix; deliveries / pi
 skills (allOf); limits (maxDistance, maxDuration, tourSize).  Additive FEATURES (gen_problem(features=...), each drawn from a
 forked stream so the base problem is the one the old generator produced): 'compat' (job compatibility classes mixed with plain
 jobs), 'group' (job groups), 'unreach' (matrix errorCodes, mostly asymmetric), 'mdim' (2-3 capacity dimensions, demands of the
-same length), 'skills2' (skills oneOf / noneOf).  NOT generated: breaks, reloads, recharges, relations, clustering,
-replacements, value/order, multiple profiles, scaled profiles, objectives override.
+same length), 'skills2' (skills oneOf / noneOf), 'reloads', 'order', 'value'; round two (own forked streams): 'breaks' (optional
+vehicle breaks) and - only for callers that pass allow=('tdm',) - 'tdm' (general routing data: 1-2 profiles, integer profile
+scale, time-dependent matrices; rendered by g_routing for Spec/ValidTD.v).  NOT generated: required breaks, recharges,
+relations, clustering, replacements, objectives override.  See notes/E2E.md.
 """
 import calendar
 import time as _time
@@ -117,9 +119,12 @@ def _task(rng, n, horizon, demand, jid, k, force_tags=False, avoid=()):
 FEATURES = ('compat', 'group', 'unreach', 'mdim', 'skills2', 'reloads', 'order', 'value')
 
 
-def gen_problem(rng, njobs=None, metric=None, nlocs=None, tight=None, multi=True, skills=True, limits=True, features=None):
+def gen_problem(rng, njobs=None, metric=None, nlocs=None, tight=None, multi=True, skills=True, limits=True, features=None,
+                allow=(), exclude=()):
     """features: None = every feature of FEATURES independently with probability ~1/3 (combined freely);
-    () = none (the generator as it was before the features existed); or an explicit collection of names to force"""
+    () = none (the generator as it was before the features existed); or an explicit collection of names to force.
+    allow: names of FEATURES3 ('tdm': general routing data) that may be drawn when features is None (only the plugins that
+    evaluate Spec/ValidTD.v allow them); exclude: names of FEATURES2 that are dropped after the draw (C12: 'breaks')"""
     n = nlocs or rng.range(3, 8)
     if metric is None:
         metric = rng.chance(3, 5)
@@ -241,8 +246,126 @@ def gen_problem(rng, njobs=None, metric=None, nlocs=None, tight=None, multi=True
     else:
         feats = [f for f in FEATURES if f in features]
     add_features(frng, problem, matrix, feats, tight)
-    return {'problem': problem, 'matrices': [matrix],
-            'meta': {'n': n, 'metric': bool(metric), 'tight': bool(tight), 'njobs': njobs, 'features': feats}}
+    # second round of features: their own forked stream, so that the problems of the first round stay what they were
+    frng2 = rng.fork('features2')
+    if features is None:
+        feats2 = [f for f in FEATURES2 if frng2.chance(1, 3)]
+        feats2 = [f for f in feats2 if f not in exclude]
+    else:
+        feats2 = [f for f in FEATURES2 if f in features]
+    add_features2(frng2, problem, matrix, feats2, tight)
+    # features a caller has to ALLOW (the plugins that can judge them): general routing data
+    frng3 = rng.fork('features3')
+    if features is None:
+        feats3 = [f for f in FEATURES3 if frng3.chance(1, 4) and f in allow]
+    else:
+        feats3 = [f for f in FEATURES3 if f in features]
+    mats = add_routing_features(frng3, problem, matrix, feats3) if feats3 else None
+    return {'problem': problem, 'matrices': mats or [matrix],
+            'meta': {'n': n, 'metric': bool(metric), 'tight': bool(tight), 'njobs': njobs, 'features': feats + feats2 + feats3}}
+
+
+FEATURES2 = ('breaks',)
+FEATURES3 = ('tdm',)
+
+
+def add_routing_features(frng, problem, matrix, feats):
+    """'tdm': GENERAL ROUTING DATA - one or two routing profiles, a profile `scale` (integer) on some vehicle types, and for
+    2/3 of the problems time-dependent routing: every profile gets 2-3 matrices with a `timestamp`.  All values that can occur
+    are integers: between two consecutive matrices a duration changes by k * (gap in seconds), k in {-1, 0, 1} (the real code
+    interpolates durations linearly in the departure time: integer slope), distances are free (the left matrix counts), scales
+    are integers.  Half of the time-dependent problems keep the durations equal in all matrices of a profile (pure step
+    functions in the distance).  Not combined with errorCodes.  Returns the list of matrices (None: nothing changed)."""
+    if 'tdm' not in feats or matrix.get('errorCodes'):
+        return None
+    n = matrix_size(matrix)
+    vehicles = problem['fleet']['vehicles']
+    names = ['car'] + (['truck'] if frng.chance(1, 2) else [])
+    problem['fleet']['profiles'] = [{'name': x} for x in names]
+    for k, v in enumerate(vehicles):
+        v['profile'] = {'matrix': names[k % len(names)] if k < len(names) else frng.choice(names)}
+        if frng.chance(1, 3):
+            v['profile']['scale'] = frng.choice([1, 2, 2, 3])
+    aware = frng.chance(2, 3)
+    step_only = frng.chance(1, 2)
+    diag = {i * n + i for i in range(n)}
+    mats = []
+    for pi, name in enumerate(names):
+        du = list(matrix['travelTimes'])
+        di = list(matrix['distances'])
+        if pi > 0:
+            du = [0 if i in diag else x + frng.range(0, 15) for i, x in enumerate(du)]
+            di = [0 if i in diag else x + frng.range(0, 25) for i, x in enumerate(di)]
+        if not aware:
+            mats.append({'profile': name, 'travelTimes': du, 'distances': di})
+            continue
+        t = frng.range(0, 90)
+        for i in range(frng.choice([2, 2, 3])):
+            mats.append({'profile': name, 'timestamp': rfc(t), 'travelTimes': list(du), 'distances': list(di)})
+            gap = frng.choice([20, 40, 60, 100])
+            t += gap
+            if not step_only:
+                du = [0 if j in diag else x + gap * frng.choice([0, 0, 1] + ([-1] if x >= gap else [])) for j, x in enumerate(du)]
+            # distances never decrease over time (a leg that departs earlier is never longer: a removal cannot lengthen the
+            # legs that stay, so only a triangle violation can - the structure the known finding C01-F1 is about)
+            di = [0 if j in diag else x + frng.choice([0, frng.range(1, 30)]) for j, x in enumerate(di)]
+    return mats
+
+
+def general_routing(p):
+    """does the problem need Spec/ValidTD.v (several matrices, a timestamp, a profile scale, several profiles)?"""
+    ms = p['matrices']
+    return len(ms) != 1 or ms[0].get('timestamp') is not None or len(p['problem']['fleet'].get('profiles') or []) != 1 \
+        or any((vt.get('profile') or {}).get('scale') is not None for vt in p['problem']['fleet']['vehicles'])
+
+
+def add_features2(frng, problem, matrix, feats, tight=False):
+    vehicles = problem['fleet']['vehicles']
+    n = matrix_size(matrix)
+    if 'breaks' in feats:
+        # OPTIONAL breaks (vehicles.md): 1-2 per shift on most shifts; time = a window (windows of one shift are disjoint and
+        # start inside the shift: E1303) or an offset interval relative to the departure (then start.latest = start.earliest:
+        # E1307); 1-2 places, ALL with or ALL without location (breaks.rs asserts it); durations differ between the places;
+        # tags only where the reported tag is unambiguous (single place, or places at different locations: see finding C03-F1)
+        chosen = [v for v in vehicles if frng.chance(4, 5)] or [vehicles[0]]
+        some = False
+        for v in chosen:
+            for sh in v['shifts']:
+                if some and not frng.chance(4, 5):
+                    continue
+                some = True
+                e1 = secs(sh['start']['earliest'])
+                end = secs(sh['end']['latest']) if sh.get('end') else e1 + 700
+                brs, lo = [], e1
+                for k in range(frng.choice([1, 1, 2])):
+                    b = {}
+                    a, w = frng.choice([frng.range(0, 40), frng.range(20, 150)]), frng.choice([frng.range(0, 30), frng.range(30, 200)])
+                    if frng.chance(1, 3) or lo + a > end:
+                        b['time'] = [a, a + w]
+                        sh['start']['latest'] = sh['start']['earliest']
+                    else:
+                        b['time'] = [rfc(lo + a), rfc(lo + a + w)]
+                        lo = lo + a + w + 1
+                    np_ = frng.choice([1, 1, 1, 2])
+                    with_loc = frng.chance(1, 2)
+                    durs = frng.shuffle([0, 3, 5, 10, 15, 20])[:np_]
+                    if durs == [0] and frng.chance(2, 3):
+                        durs = [7]
+                    locs = frng.shuffle(list(range(n)))[:np_]
+                    places = []
+                    for i in range(np_):
+                        pl = {'duration': durs[i]}
+                        if with_loc:
+                            pl['location'] = {'index': locs[i]}
+                        if (np_ == 1 or (with_loc and len(set(locs)) == np_)) and frng.chance(1, 2):
+                            pl['tag'] = 'br%d%s' % (k + 1, 'ab'[i])
+                        places.append(pl)
+                    b['places'] = places
+                    r = frng.below(3)
+                    if r:
+                        b['policy'] = ['skip-if-no-intersection', 'skip-if-arrival-before-end'][r - 1]
+                    brs.append(b)
+                sh['breaks'] = brs
 
 
 def add_features(frng, problem, matrix, feats, tight=False):
@@ -386,7 +509,17 @@ def location_refs(problem):
             if sh.get('end'):
                 locs.append(sh['end']['location'])
             locs += [r['location'] for r in sh.get('reloads') or []]
+            locs += [pl['location'] for b in optional_breaks(sh) for pl in b['places'] if pl.get('location') is not None]
     return locs
+
+
+def optional_breaks(sh):
+    """the OPTIONAL breaks of a shift (those with `places`), document order"""
+    return [b for b in sh.get('breaks') or [] if 'places' in b]
+
+
+def required_breaks(sh):
+    return [b for b in sh.get('breaks') or [] if 'places' not in b]
 
 
 def used_locations(problem):
@@ -454,6 +587,10 @@ class Ids:
                 for r in sh.get('reloads') or []:
                     if r.get('tag') is not None:
                         self.tags.setdefault(r['tag'], len(self.tags) + 1)
+                for b in optional_breaks(sh):
+                    for pl in b['places']:
+                        if pl.get('tag') is not None:
+                            self.tags.setdefault(pl['tag'], len(self.tags) + 1)
         self.groups, self.compats = {}, {}
         for j in pr['plan']['jobs']:
             if j.get('group') is not None:
@@ -540,8 +677,33 @@ def g_shift(sh, ids=None):
     end = 'None'
     if sh.get('end') is not None:
         end = '(Some (%s, %s))' % (z(sh['end']['location']['index']), z(secs(sh['end']['latest'])))
-    return '(mkPShift %s %s %s %s %s)' % (z(st['location']['index']), z(secs(st['earliest'])), z(latest), end,
-                                          lst(sh.get('reloads') or [], lambda r: g_place(ids, r)))
+    return '(mkPShift %s %s %s %s %s %s)' % (z(st['location']['index']), z(secs(st['earliest'])), z(latest), end,
+                                             lst(sh.get('reloads') or [], lambda r: g_place(ids, r)),
+                                             lst(optional_breaks(sh), lambda b: g_break(ids, b)))
+
+
+NOLOC = -1                 # Valid.NOLOC: pl_loc of a break place without location
+BREAK_JOB = -12            # Valid.BREAK_JOB: the job id a break activity is rendered with
+
+
+def break_is_offset(b):
+    return not isinstance(b['time'][0], str)
+
+
+def break_window(b):
+    """(start, end): absolute seconds relative to BASE for a window break, raw offsets for an offset break"""
+    t = b['time']
+    return (int(t[0]), int(t[1])) if break_is_offset(b) else (secs(t[0]), secs(t[1]))
+
+
+def g_break(ids, b):
+    w = break_window(b)
+
+    def place(pl):
+        tag = None if pl.get('tag') is None else ids.tag(pl['tag'])
+        loc = NOLOC if pl.get('location') is None else pl['location']['index']
+        return '(mkPPlace %s %s [(%s, %s)] %s)' % (z(loc), z(int(pl['duration'])), z(w[0]), z(w[1]), zopt(tag))
+    return '(mkPBreak %s %s)' % (lst(b['places'], place), 'true' if break_is_offset(b) else 'false')
 
 
 def g_vtype(ids, t):
@@ -572,13 +734,51 @@ def g_problem(p, ids=None):
                                               zlist(m.get('errorCodes') or []))
 
 
+def g_routing(p, ids=None):
+    """Gallina term of type `option ValidTD.trouting`: None for the classic fragment (one matrix, one profile, no scale),
+    otherwise the routing data as the reader sees them (profile names numbered, absolute timestamps)"""
+    if not general_routing(p):
+        return 'None'
+    from fractions import Fraction
+    ids = ids or Ids(p)
+    fleet = p['problem']['fleet']
+    names = {}
+    for pr in fleet.get('profiles') or []:
+        names.setdefault(pr['name'], len(names))
+    for m in p['matrices']:
+        if m.get('profile') is not None:
+            names.setdefault(m['profile'], len(names))
+    for vt in fleet['vehicles']:
+        names.setdefault(vt['profile']['matrix'], len(names))
+
+    def onat(x):
+        return 'None' if x is None else '(Some %s)' % nat(x)
+
+    def mat(m):
+        ts = None if m.get('timestamp') is None else secs(m['timestamp']) + BASE
+        err = 'None' if m.get('errorCodes') is None else '(Some %s)' % zlist(m['errorCodes'])
+        return '(Routing.mkPM %s %s %s %s %s)' % (onat(None if m.get('profile') is None else names[m['profile']]), zopt(ts),
+                                                 zlist(m['travelTimes']), zlist(m['distances']), err)
+
+    def vtype(vt):
+        sc = vt['profile'].get('scale')
+        if sc is None:
+            s = 'None'
+        else:
+            f = Fraction(str(sc))
+            s = '(Some (%s, %s))' % (z(f.numerator), z(f.denominator))
+        return '(%s, (%s, %s))' % (z(ids.vtype(vt['typeId'])), nat(names[vt['profile']['matrix']]), s)
+    return '(Some (mkTRouting %s %s %s %s))' % (lst([names[pr['name']] for pr in fleet.get('profiles') or []], nat),
+                                                lst(p['matrices'], mat), lst(fleet['vehicles'], vtype), z(BASE))
+
+
 def _interval(iv):
     return None if iv is None else (secs(iv['start']), secs(iv['end']))
 
 
 def g_act(ids, a):
     kind = KIND.get(a.get('type'), 99)
-    job = ids.job(a['jobId']) if kind in (0, 1, 2, 3) else RELOAD_JOB if kind == 13 else -1
+    job = ids.job(a['jobId']) if kind in (0, 1, 2, 3) else RELOAD_JOB if kind == 13 else BREAK_JOB if kind == 12 else -1
     loc = None if a.get('location') is None else a['location']['index']
     iv = _interval(a.get('time'))
     tag = None if a.get('jobTag') is None else ids.tag(a['jobTag'])
@@ -626,6 +826,19 @@ def unsupported(p, s):
         if any(len(v['capacity']) != dims for v in p['problem']['fleet']['vehicles']) or \
                 any(len(t['demand']) != dims for j in p['problem']['plan']['jobs'] for _, t in tasks_of(j) if t.get('demand')):
             return 'capacities / demands of different lengths'
+        for r in p['problem']['plan'].get('relations') or []:
+            if any(x in ('break', 'reload', 'recharge') for x in r['jobs']):
+                return 'relation names a break / reload / recharge'
+        for vt in p['problem']['fleet']['vehicles']:
+            for sh in vt['shifts']:
+                if required_breaks(sh):
+                    return 'required break (reserved time stretches travel / service): schedule not replayed'
+                if sh.get('recharges'):
+                    return 'recharge stations'
+                for b in optional_breaks(sh):
+                    if len(b['time']) != 2 or any(float(x) != int(x) for x in b['time'] if not isinstance(x, str)) or \
+                            any(float(pl['duration']) != int(pl['duration']) for pl in b['places']):
+                        return 'break with non-integer offsets / durations'
         if not isinstance(s, dict) or 'tours' not in s or 'statistic' not in s:
             return 'not a solution document'
         sts = [s['statistic']] + [t['statistic'] for t in s['tours']]
@@ -714,6 +927,152 @@ def gen_cases(rng, n, per_problem=3, trace=0, **opts):
     return cases
 
 
+# ------------------------------------------------------------------------------------------------ relations (two-phase generation)
+REL_TYPE = {'any': 0, 'sequence': 1, 'strict': 2}
+REL_DEPARTURE, REL_ARRIVAL = -10, -11      # Spec/Relations.v
+
+
+def harness_exe(name='solve'):
+    """path of a harness binary of the running check (mutant runs use the mutant's build: verif.CARGO_TARGET)"""
+    import os
+    import sys
+    for mod in ('__main__', 'verif'):
+        ct = getattr(sys.modules.get(mod), 'CARGO_TARGET', None)
+        if ct:
+            return os.path.join(ct, 'debug', name)
+    build = os.environ.get('VERIF_BUILD', os.path.join(os.path.dirname(os.path.dirname(os.path.dirname(os.path.abspath(__file__)))), 'build'))
+    return os.path.join(build, 'cargo', 'debug', name)
+
+
+def solve_batch(cases):
+    """run harness cases through the real solver now (generation time); returns the list of results (None where missing)"""
+    import json
+    import os
+    import subprocess
+    import tempfile
+    d = tempfile.mkdtemp(prefix='e2e-solve-')
+    cf, of = os.path.join(d, 'in.jsonl'), os.path.join(d, 'out.jsonl')
+    with open(cf, 'w') as fh:
+        for k, c in enumerate(cases):
+            fh.write(json.dumps(dict(c, id=k)) + '\n')
+    res = {}
+    try:
+        subprocess.run([harness_exe(), cf, of], stdout=subprocess.DEVNULL, stderr=subprocess.DEVNULL, timeout=3000)
+        if os.path.exists(of):
+            for line in open(of):
+                r = json.loads(line)
+                res[r['id']] = r.get('res') if 'panic' not in r else {'panic': r['panic']}
+    finally:
+        for f in (cf, of):
+            if os.path.exists(f):
+                os.remove(f)
+        os.rmdir(d)
+    return [res.get(k) for k in range(len(cases))]
+
+
+def derive_relations(rng, p, s):
+    """relations CONSISTENT with solution s of problem p (relations.md: locked jobs are put into the initial tours unchecked,
+    so they have to come from a feasible solution): at most one relation per tour, its jobs listed in the tour's visiting order
+    (a job with several tasks once per task, task order = visiting order, factories.rs), only jobs whose tasks have one place
+    and at most one time window (E1203; factories.rs asserts it for `any` too); strict: a block of consecutive activities
+    (jobs only), anchored to `departure` / `arrival` when the block opens / closes the tour (half of the time)"""
+    jobs = {j['id']: j for j in p['problem']['plan']['jobs']}
+    kindname = {0: 'pickup', 1: 'delivery', 3: 'replacement', 2: 'service'}
+    rels = []
+    for t in s.get('tours') or []:
+        if not rng.chance(3, 4):
+            continue
+        mids = [(a['type'], a['jobId']) for st in t['stops'] for a in st['activities'] if a['type'] not in ('departure', 'arrival')]
+
+        def eligible(jid):
+            j = jobs.get(jid)
+            if j is None:
+                return False
+            ts = tasks_of(j)
+            if any(len(tk['places']) != 1 or len(tk['places'][0].get('times') or []) > 1 for _, tk in ts):
+                return False
+            # all tasks in this tour, visited in task order
+            seen = [typ for typ, x in mids if x == jid]
+            return seen == [kindname[k] for k, _ in ts]
+        ok = [jid for _, jid in mids if eligible(jid)]
+        if not ok:
+            continue
+        typ = rng.choice(['any', 'sequence', 'strict', 'strict'])
+        vt = vehicle_type_of(p, t)
+        has_end = bool(vt and vt['shifts'][t.get('shiftIndex', 0)].get('end'))
+        if typ == 'strict':
+            # windows [i, j) of consecutive activities, all of eligible jobs, every such job completely inside
+            wins = []
+            for i in range(len(mids)):
+                for j in range(i + 1, min(len(mids), i + 5) + 1):
+                    ids = [x for _, x in mids[i:j]]
+                    if all(x in ok for x in ids) and all(ids.count(x) == len(tasks_of(jobs[x])) for x in set(ids)):
+                        wins.append((i, j))
+            if not wins:
+                continue
+            i, j = rng.choice(wins)
+            lst_ = [x for _, x in mids[i:j]]
+            if i == 0 and rng.chance(1, 2):
+                lst_ = ['departure'] + lst_
+            if j == len(mids) and has_end and rng.chance(1, 2):
+                lst_ = lst_ + ['arrival']
+        else:
+            chosen = set(rng.shuffle(sorted(set(ok)))[:rng.range(1, 3)])
+            lst_ = [x for _, x in mids if x in chosen]
+            if rng.chance(1, 6):
+                lst_ = ['departure'] + lst_          # no rule is attached to it for any / sequence: exercises the reader only
+        rel = {'type': typ, 'vehicleId': t['vehicleId'], 'jobs': lst_}
+        if t.get('shiftIndex', 0) != 0 or rng.chance(1, 3):
+            rel['shiftIndex'] = t.get('shiftIndex', 0)
+        rels.append(rel)
+    return rels
+
+
+REL_FEATURES = ('compat', 'group', 'mdim', 'skills2', 'order', 'value', 'breaks')
+
+
+def gen_relation_cases(rng, n, per_problem=2):
+    """n harness cases whose problems carry `plan.relations` derived from a solution of the same problem (solve once, derive,
+    re-solve with the relations).  Base problems: metric matrix and no tour limits (the initial tours are built from the locked
+    jobs WITHOUT any check, relations.md; a sub-sequence of a feasible tour stays feasible for time windows, capacity, skills,
+    compatibility, groups and task order when travel times obey the triangle inequality), no reloads / errorCodes"""
+    cases, tries = [], 0
+    while len(cases) < n and tries < 6:
+        tries += 1
+        probs = []
+        for _ in range(max(4, (n - len(cases)) // per_problem + 3)):
+            feats = tuple(f for f in REL_FEATURES if rng.chance(1, 3))
+            probs.append(gen_checked_problem(rng, metric=True, limits=False, features=feats))
+        first = [solve_case(p, {'max_generations': rng.range(3, 12), 'parallelism': None, 'quota_after_polls': None,
+                                'seed': rng.below(1000), 'outer_threads': 1}) for p in probs]
+        for p, r in zip(probs, solve_batch(first)):
+            if outcome(r) != 'solution' or unsupported(p, r['solution']):
+                continue
+            rels = derive_relations(rng, p, r['solution'])
+            if not rels:
+                continue
+            q = {'problem': dict(p['problem'], plan=dict(p['problem']['plan'], relations=rels)), 'matrices': p['matrices'],
+                 'meta': dict(p['meta'], features=list(p['meta']['features']) + ['relations'])}
+            for _ in range(per_problem):
+                if len(cases) >= n:
+                    break
+                c = solve_case(q, gen_config(rng))
+                c['meta'] = q['meta']
+                cases.append(c)
+    return cases
+
+
+def g_relations(p, ids=None):
+    """Gallina term of type `list Relations.prel` ([] without relations)"""
+    ids = ids or Ids(p)
+    rels = p['problem']['plan'].get('relations') or []
+
+    def rid(x):
+        return REL_DEPARTURE if x == 'departure' else REL_ARRIVAL if x == 'arrival' else ids.job(x)
+    return lst(rels, lambda r: '(mkPRel %s %s %s %s)' % (z(REL_TYPE[r['type']]), z(ids.vehicle(r['vehicleId'])),
+                                                         nat(r.get('shiftIndex') or 0), zlist([rid(x) for x in r['jobs']])))
+
+
 def outcome(impl):
     """'solution' | 'error' | 'panic' of a harness result"""
     if impl is None or 'panic' in impl:
@@ -757,11 +1116,23 @@ def _reload_fits(a, r):
     return any(a['start'] == max(a['arr'], w[0]) for w in tws)
 
 
-def _assignable(acts, avail):
-    """python twin of Valid.assign_b: every activity gets its own fitting reload definition"""
+def _assignable(acts, avail, fits=None):
+    """python twin of Valid.assign_b / gassign_b: every activity gets its own fitting reload (break) definition"""
+    fits = fits or _reload_fits
     if not acts:
         return True
-    return any(_reload_fits(acts[0], r) and _assignable(acts[1:], avail[:i] + avail[i + 1:]) for i, r in enumerate(avail))
+    return any(fits(acts[0], r) and _assignable(acts[1:], avail[:i] + avail[i + 1:], fits) for i, r in enumerate(avail))
+
+
+def _break_fits(dep):
+    """python twin of Valid.break_fits for a tour that departs at dep"""
+    def fits(a, b):
+        w = break_window(b)
+        if break_is_offset(b):
+            w = (w[0] + dep, w[1] + dep)
+        return any((pl.get('location') is None or pl['location']['index'] == a['loc'])
+                   and int(pl['duration']) == a['end'] - a['start'] and a['start'] == max(a['arr'], w[0]) for pl in b['places'])
+    return fits
 
 
 _COND = None
@@ -840,7 +1211,7 @@ def py_accounting(p, s):
         if key in seen:
             v.append(('AShiftTwice', k))
         seen.append(key)
-        if any(a[1] not in jobkinds + ('departure', 'arrival', 'reload') for a in flats[k]):
+        if any(a[1] not in jobkinds + ('departure', 'arrival', 'reload', 'break') for a in flats[k]):
             v.append(('AExtraActivity', k))
         shift = None
         for vt in pr['fleet']['vehicles']:
@@ -851,6 +1222,10 @@ def py_accounting(p, s):
             racts = [a for a in _flat_facts(t) if a['kind'] == 'reload']
             if not _assignable(racts, list(shift.get('reloads') or [])):
                 v.append(('AReload', k))
+            facts = _flat_facts(t)
+            bacts = [a for a in facts if a['kind'] == 'break']
+            if not _assignable(bacts, optional_breaks(shift), _break_fits(facts[0]['end'] if facts else 0)):
+                v.append(('ABreak', k))
     return sorted(v)
 
 
